@@ -15,13 +15,16 @@ LEVEL = "exploration"
 RULE = ("Hypothesis-generated schedule programs: 2-8 threads, each a list of {create (C API / C++ new), load (file/string; corpus/mt/small.dat, "
         "phreeqc.dat, pitzer.dat), set switches (string + file switches), run (RunString/RunFile/AccumulateLine+RunAccumulated; workload pool: "
         "speciation+equilibrium phases+dump, kinetics Runge-Kutta and CVODE, 3-cell advective transport with exchange, 3-cell multicomponent-"
-        "diffusion transport, inverse model, BASIC-heavy USER_PUNCH/USER_PRINT, error-producing input; 16 parameter values each; workloads "
+        "diffusion transport, inverse model, BASIC-heavy USER_PUNCH/USER_PRINT, error-producing input, REACTION with digit/fractional/exponent formulas, and an "
+        "error-free 'sticky' input that leaves errno == ERANGE behind on the calling thread (8 variants: EXP/LOG10/power/literal range "
+        "errors); 16 parameter values each; workloads "
         "use disjoint reactant numbers so any sequence on one instance stays cheap), read all channels (selected-output tables bitwise, output/"
         "log/dump/error/warning strings, line counts, components, default-named files), destroy} on its own instances, with 1-3 barrier points "
         "that start operations of different threads simultaneously (run-vs-destroy, run-vs-create, create-vs-destroy, load-vs-run, all-create, "
-        "all-run, mixed); in 1 of 4 schedules an extra thread replays another thread's program without barriers (twin histories). Each "
+        "all-run, mixed); in every schedule at least one thread owns two instances A, B whose call sequences interleave (B.load|run, "
+        "A.run [sticky in 3 of 4], B.run); in 1 of 4 schedules an extra thread replays another thread's program without barriers (twin histories). Each "
         "schedule is executed by the ThreadSanitizer build (1 sequential + 3 concurrent processes) and by the release build (1 sequential, "
-        "2x reverse-order sequential, one solo process per thread, 3 concurrent processes x 10 iterations). Excluded by construction and "
+        "2x reverse-order sequential, one solo process per thread, one solo process per INSTANCE (its own call sequence alone), 3 concurrent processes x 10 iterations). Excluded by construction and "
         "counted (known finding): TRANSPORT runs in more than one thread of a schedule (one thread per schedule may run them). Non-trivial = a ThreadSanitizer-instrumented concurrent execution of the schedule had >=2 threads inside library calls at "
         "the same time AND >=1 create/destroy overlapping a run (relaxed atomic counters in the harness); distinct by SHA-256 of the case")
 ASSUMPTIONS = ["ThreadSanitizer (clang 14, -O1) reports every happens-before violation on the paths a schedule executes, and only those; paths "
@@ -37,10 +40,10 @@ ASSUMPTIONS = ["ThreadSanitizer (clang 14, -O1) reports every happens-before vio
                "time never decides a verdict: an execution still consuming CPU after 300 s discards the case (counted); a deadlock needs 3 of 3 "
                "executions in which every thread sleeps in futex(2) with unchanged CPU time and context-switch counts over 7 samples 5 s apart"]
 TECHNIQUE = ("property-based testing (Hypothesis) of thread schedules: ThreadSanitizer race detection + differential concurrent vs "
-             "sequential vs reverse vs solo vs repeated execution of the same per-thread programs, bitwise on all channels; id uniqueness")
+             "sequential vs reverse vs per-thread solo vs per-instance solo vs repeated execution of the same call sequences, bitwise on all channels; id uniqueness")
 LEVEL_TEXT = ("Exploration: each run executes 64 (quick) to 1600 (thorough) generated multi-thread schedules under ThreadSanitizer "
               "and, with 10x the volume, in the release build; every instance's observations (tables bitwise, all strings and files) must be "
-              "the same whether its thread ran alone, sequentially, or concurrently with up to 7 others, in every repetition, and ids must be "
+              "the same whether the instance's call sequence ran alone in a fresh process, its thread ran alone, sequentially, or concurrently with up to 7 others, in every repetition, and ids must be "
               "unique and never reused. Limits: schedules and interleavings are sampled; TSan sees only executed paths; the qsort lock cannot "
               "be observed on glibc; TRANSPORT runs in two threads at once are excluded (known finding: transport.cpp file-scope globals).")
 FLOORS = {"quick": 40, "thorough": 1000}
@@ -108,9 +111,11 @@ def _set(draw, t, s):
     t.ops.append({"op": "set", "s": s, "mask": _mask(draw)})
 
 
-def _run(draw, t, s, heavy=False):
+def _run(draw, t, s, heavy=False, sticky=False):
     db = t.live[s]
     names = [n for n in sorted(wl.WORKLOADS) if db in wl.WORKLOADS[n] and (not heavy or n in HEAVY)]
+    if sticky:
+        names = [n for n in names if n in wl.STICKY_WL]
     if not t.transport_ok:
         names = [n for n in names if n not in wl.TRANSPORT_WL]
         t.excluded += 1      # a draw from which the transport workloads were struck (exclusion by construction, counted)
@@ -143,15 +148,42 @@ def _pick_loaded(draw, t):
     return k
 
 
+def _interleave(draw, t):
+    """two instances A, B of this thread with interleaved call sequences: B.load ... A.run(sticky state) ... B.run.
+    Whatever A leaves behind outside its own object (errno, statics, caches) lies between two calls of B."""
+    loaded = [k for k in sorted(t.live) if t.live[k]]
+    if len(loaded) >= 2 and draw(st.booleans()):
+        pair = draw(st.permutations(loaded))[:2]
+        a, b = pair[0], pair[1]
+        if draw(st.booleans()):          # B.run, A.run, B.run instead of B.load, A.run, B.run
+            _run(draw, t, b)
+            _read(t, b)
+    else:
+        a = _create(draw, t)
+        b = loaded[0] if loaded and draw(st.booleans()) else _create(draw, t)
+        _load(draw, t, b)
+        _set(draw, t, b)
+        _load(draw, t, a)
+        _set(draw, t, a)
+    _run(draw, t, a, sticky=draw(st.integers(0, 3)) > 0)
+    _read(t, a)
+    _run(draw, t, b)
+    _read(t, b)
+    if len(t.live) > 2 and draw(st.booleans()):
+        _destroy(t, a)
+
+
 def _nruns(t):
     return sum(1 for o in t.ops if o["op"] == "run")
 
 
 def _free(draw, t):
-    a = draw(st.sampled_from(["run", "run", "new", "destroy", "reload", "set"]))
-    if a == "run" and _nruns(t) >= MAX_FREE_RUNS:
+    a = draw(st.sampled_from(["run", "run", "new", "destroy", "reload", "set", "interleave"]))
+    if a in ("run", "interleave") and _nruns(t) >= MAX_FREE_RUNS:
         a = "set"
-    if a == "run":
+    if a == "interleave":
+        _interleave(draw, t)
+    elif a == "run":
         s = _pick_loaded(draw, t)
         _run(draw, t, s)
         _read(t, s)
@@ -179,6 +211,11 @@ def case_strategy(draw):
     T = [_T(i == tt) for i in range(n)]
     nbar = draw(st.integers(1, 3))
     counts, patterns = [], []
+    # at least one thread of every schedule owns two instances whose call sequences interleave (before or after its barriers)
+    il = draw(st.integers(0, n - 1))
+    il_first = draw(st.booleans())
+    if il_first:
+        _interleave(draw, T[il])
     for b in range(nbar):
         pat = draw(st.sampled_from(["run_destroy", "run_create"] if b == 0 else sorted(PATTERNS)))
         patterns.append(pat)
@@ -221,6 +258,8 @@ def case_strategy(draw):
                     _set(draw, t, s)
                 _run(draw, t, s)
                 _read(t, s)
+    if not il_first:
+        _interleave(draw, T[il])
     for t in T:
         if not t.ops:      # a thread that takes part in no barrier still does something
             s = _create(draw, t)
@@ -505,9 +544,9 @@ def check_crash(r, what):
         raise Violation("process-death", "%s exited with %s without a complete result\n%s" % (what, r.rc, r.stderr[-2500:]))
 
 
-def compare(ref, res, what, threads=None):
+def compare(ref, res, what, threads=None, keys=None):
     """ref: records of iteration 0 of the reference; res: Res of the other execution.  Every iteration must match."""
-    want = {k: v for k, v in ref.items() if threads is None or k[0] in threads}
+    want = {k: v for k, v in ref.items() if (threads is None or k[0] in threads) and (keys is None or k in keys)}
     for it in sorted(res.recs):
         got = res.recs[it]
         if set(got) != set(want):
@@ -555,6 +594,31 @@ def histories(case):
                 key, idx = cur.pop(s)
                 out.setdefault("|".join(key), []).append((ti, idx))
     return out
+
+
+def instances(case):
+    """[(thread, index of the create operation, [operation indices of that instance's call sequence])]"""
+    out = []
+    for key, insts in sorted(histories(case).items()):
+        for ti, idx in insts:
+            out.append((ti, idx[0], idx))
+    return sorted(out)
+
+
+def interleaved_pairs(case):
+    """number of (A, B) instance pairs of one thread with a run of A strictly between two calls of B"""
+    n = 0
+    for ti, ops in enumerate(case["threads"]):
+        inst = [x for x in instances(case) if x[0] == ti]
+        for _, _, ia in inst:
+            runs_a = [i for i in ia if ops[i]["op"] == "run"]
+            for _, _, ib in inst:
+                if ib is ia:
+                    continue
+                calls_b = [i for i in ib if ops[i]["op"] in ("load", "run")]
+                if any(calls_b[0] < r < calls_b[-1] for r in runs_a) if calls_b else False:
+                    n += 1
+    return n
 
 
 def check_twins(case, r, what):
@@ -708,6 +772,13 @@ def _check(case, ctx):
             rs = execute(ctx, "rel", sched, sd, "rsolo", ["--mode", "seq", "--only", str(t)])
             check_crash(rs, "mt_rel solo")
             compare(refr, rs, "rel thread %d alone in a fresh process vs sequential" % t, threads={t})
+        # every instance's own call sequence alone in a fresh process ("a function of that sequence alone")
+        insts = instances(case)
+        for ti, ci, idx in insts:
+            ri = execute(ctx, "rel", sched, sd, "rinst", ["--mode", "seq", "--inst", str(ti), str(ci)])
+            check_crash(ri, "mt_rel single instance")
+            compare(refr, ri, "rel instance created by thread %d operation %d alone in a fresh process vs sequential execution of "
+                    "the whole schedule" % (ti, ci), keys={(ti, oi) for oi in idx})
         rmax = 0
         nconc, iters = [int(x) for x in case.get("replay_rel", [3, 20])] if replay else (REL_CONC, REL_ITERS)
         for k in range(nconc):
@@ -734,6 +805,11 @@ def _check(case, ctx):
             classes.append("run_overlaps_run")
         if ntw:
             classes.append("twin_histories")
+        nil = interleaved_pairs(case)
+        classes.append("interleaved_instance_pairs:" + ("0" if nil == 0 else "1-2" if nil <= 2 else "3-6" if nil <= 6 else ">6"))
+        stk = sum(1 for ops in case["threads"] for o in ops if o["op"] == "run" and o["wl"] in wl.STICKY_WL)
+        if stk:
+            classes.append("has_sticky_state_run")
         nrun = sum(1 for ops in case["threads"] for o in ops if o["op"] == "run")
         ninst = sum(1 for ops in case["threads"] for o in ops if o["op"] == "create")
         classes.append("runs:" + ("1-3" if nrun <= 3 else "4-8" if nrun <= 8 else "9-16" if nrun <= 16 else ">16"))
@@ -748,7 +824,7 @@ def _check(case, ctx):
             classes.append("load_via_string")
         for v in sorted({o["via"] for ops in case["threads"] for o in ops if o["op"] == "run"}):
             classes.append("run_via:" + v)
-        ctx.extra["harness_executions"] = ctx.extra.get("harness_executions", 0) + nexec + 3 + n + nconc
+        ctx.extra["harness_executions"] = ctx.extra.get("harness_executions", 0) + nexec + 3 + n + nconc + len(insts)
         ctx.extra["rel_concurrent_iterations"] = ctx.extra.get("rel_concurrent_iterations", 0) + nconc * iters
         ctx.extra["instances_compared"] = ctx.extra.get("instances_compared", 0) + ninst * (nexec + 4 + nconc * iters)
         return {"nontrivial": nt, "classes": classes}
